@@ -361,6 +361,11 @@ pub enum ScalarR {
     /// windowed ladder on a point of order r meets its own base point or a table entry again
     /// (r+2, 2r+4, 2r+5: accumulator = base; r, 2r, 4r: accumulator = -base; ...)
     NearMultR(u8, i16),
+    /// a scalar (possibly >= r) at which the 8 x 32-bit interleaved comb of mul_precomp_256, run on a point of order r,
+    /// meets a coincidence: after a doubling the accumulator EQUALS the table entry about to be added (the addition is a
+    /// doubling) or is its negative (the sum is the identity). Found by simulating the comb in Z/r on the candidates
+    /// m r + c 2^s n, n a sum of powers 2^(32 j); index into that list.
+    CombEvent(u16),
     Bit(u8),
     TwoBits(u8, u8),
     /// 2^n - 1
@@ -395,6 +400,10 @@ impl ScalarR {
                     if base >= dd { base - dd } else { base }
                 };
                 v % (Z::one() << 256)
+            }
+            ScalarR::CombEvent(i) => {
+                let v = comb_event_scalars();
+                v[(*i as usize * v.len()) >> 16].clone()
             }
             ScalarR::Bit(i) => one << (*i as usize),
             ScalarR::TwoBits(i, j) => (one.clone() << (*i as usize)) | (one << (*j as usize)),
@@ -435,6 +444,7 @@ impl ScalarR {
             ScalarR::Small(_) => "k-small",
             ScalarR::NearR(_) => "k-near-r",
             ScalarR::NearMultR(_, _) => "k-near-multiple-of-r",
+            ScalarR::CombEvent(_) => "k-comb-coincidence",
             ScalarR::Bit(_) => "k-single-bit",
             ScalarR::TwoBits(_, _) => "k-two-bits",
             ScalarR::LowMask(_) => "k-mask",
@@ -447,6 +457,61 @@ impl ScalarR {
     }
 }
 
+/// does the interleaved comb (32 columns, 8 chunks of 32 bits) hit "accumulator == +-table entry" for scalar k on a point of order r?
+fn comb_has_event(k: &Z) -> bool {
+    let rr = r();
+    let mut acc = Z::zero();
+    for i in (0..32).rev() {
+        acc = (&acc + &acc) % rr;
+        let mut e = Z::zero();
+        for c in 0..8 {
+            if ((k >> (32 * c + i)) & Z::one()) == Z::one() {
+                e = e + (Z::one() << (32 * c));
+            }
+        }
+        let e = e % rr;
+        if !acc.is_zero() && !e.is_zero() && (acc == e || (&acc + &e) % rr == Z::zero()) {
+            return true;
+        }
+        acc = (acc + e) % rr;
+    }
+    false
+}
+
+static COMB_EVENTS: OnceLock<Vec<Z>> = OnceLock::new();
+
+pub fn comb_event_scalars() -> &'static Vec<Z> {
+    COMB_EVENTS.get_or_init(|| {
+        let mut out = vec![];
+        let two256 = Z::one() << 256;
+        'search: for s in 0..32usize {
+            for m in 1u32..=4 {
+                for mask in 1u32..256 {
+                    let mut n = Z::zero();
+                    for c in 0..8 {
+                        if mask & (1 << c) != 0 {
+                            n = n + (Z::one() << (32 * c));
+                        }
+                    }
+                    for mult in [1u32, 2, 3] {
+                        let k = (r() * Z::from(m) + (&n * Z::from(mult) << s)) % &two256;
+                        if comb_has_event(&k) && !out.contains(&k) {
+                            out.push(k);
+                            if out.len() >= 96 {
+                                break 'search;
+                            }
+                        }
+                    }
+                }
+            }
+        }
+        if out.is_empty() {
+            out.push(Z::one());
+        }
+        out
+    })
+}
+
 pub fn scalar_strategy() -> BoxedStrategy<ScalarR> {
     prop_oneof![
         1 => Just(ScalarR::Zero),
@@ -454,6 +519,7 @@ pub fn scalar_strategy() -> BoxedStrategy<ScalarR> {
         1 => any::<u8>().prop_map(ScalarR::Small),
         2 => (0u8..3).prop_map(ScalarR::NearR),
         3 => (0u8..5, prop_oneof![3 => -8i16..=8, 1 => -600i16..=600]).prop_map(|(m, d)| ScalarR::NearMultR(m, d)),
+        2 => any::<u16>().prop_map(ScalarR::CombEvent),
         3 => any::<u8>().prop_map(ScalarR::Bit),
         2 => (any::<u8>(), any::<u8>()).prop_map(|(a, b)| ScalarR::TwoBits(a, b)),
         2 => (0u16..257).prop_map(ScalarR::LowMask),
